@@ -189,8 +189,16 @@ def make_case(seed, i, path=None):
         free = [x for x in _free_cells(desc, key[0], key[1]) if x[0] >= 9]
         for p, (c, r) in zip(probes[:rng.randint(5, 7)], rng.sample(free, min(len(free), 7))):
             cells['%s%d' % (gw.col_name(c), r)] = {'f': p}
+    # two different undefined names in one formula, each intercepted on its own
+    bk0 = desc['books'][0]['name']
+    na = ['raw', 'No_Such_A', "'[%s]'!No_Such_A" % bk0]
+    nb = ['raw', 'No_Such_B', "'[%s]'!No_Such_B" % bk0]
+    c0 = desc['books'][0]['sheets'][0]['cells']
+    c0['L13'] = {'f': ['bin', '+', ['call', 'IFERROR', [na, ['lit', 10.0]]],
+                       ['call', 'IFERROR', [nb, ['lit', 20.0]]]]}
+    c0['L14'] = {'f': ['bin', '+', ['call', 'ISERROR', [nb]], ['call', 'ISERROR', [na]]]}
     return {'kind': 'twin', 'id': i, 'path': path, 'base': base, 'desc': desc,
-            'faults': faults}
+            'faults': faults, 'expect': [[[0, 0, 12, 13], 30.0], [[0, 0, 12, 14], 2.0]]}
 
 
 class LogTap(logging.Handler):
@@ -311,6 +319,16 @@ def check_case(case, ctx):
                 'observed': xl.show(o), 'accepted': [xl.show(v0) + ' (value in the '
                                                      'workbook without the faults)']})
     ctx.count('monitor.local-cells', n)
+    # interception of two different unresolved names inside one formula
+    for key, want in case.get('expect') or ():
+        key = tuple(key)
+        o = observed.get(key, ('missing',))
+        ctx.count('monitor.two-names-cells')
+        if o != xl.c_num(want):
+            ctx.violation('two-undefined-names:%s->num' % wbrun._cls(o), {
+                'case': case, 'cell': gw.key_of(desc, *key),
+                'formula': gw.formula_text(desc, gw_cell(desc, key)['f'], (0, 0)),
+                'observed': xl.show(o), 'accepted': [repr(want)]})
     # the healthy bystanders that read through the link table
     for b, links in (desc.get('links') or {}).items():
         for addr, want in (('L11', 43.0), ('L12', 49.0)):
